@@ -21,10 +21,13 @@ def declared (het : Option Het) (k : String) : Option (List Rat → Params → V
 
 /-- a heterogeneous parameter is replaced by the value of its function at the current point (the
     function sees the sample's own parameters); undeclared parameters pass through -/
+def hetSpecVal (het : Option Het) (q : Params) (pt : List Rat) (k : String) (v : Val) : Val :=
+  match declared het k with
+  | some g => g pt q
+  | none => v
+
 def hetSpec (het : Option Het) (q : Params) (pt : List Rat) : Params :=
-  q.map fun kv => (kv.1, match declared het kv.1 with
-    | some g => g pt q
-    | none => kv.2)
+  q.map fun kv => (kv.1, hetSpecVal het q pt kv.1 kv.2)
 
 /-- mean over the samples of `w · Σ_c f(x_i, sel i)_c²` -/
 def specMse (w : Rat) (f : List Rat → Params → Val) (xs : List (List Rat)) (sel : Nat → Params) :
@@ -45,25 +48,57 @@ def batchSize (rows : Rows) : Option Nat :=
   | [] => none
   | r :: _ => some r.2.length
 
+/-- numbers of samples of the terms that are mapped together with the parameter batch -/
+def termSizes (s : Single) : List Nat :=
+  (match s.dyn with | some m => [m.xs.length] | none => []) ++
+  (match s.icPDE with | some m => [m.xs.length] | none => []) ++
+  (s.boundary.map fun m => m.xs.length) ++
+  (match s.norm with | some (_, _, _, xs) => [xs.length] | none => []) ++
+  (match s.obs with | some m => [m.xs.length] | none => [])
+
+def wfKeys (p : Params) (s : Single) : Bool :=
+  (s.paramRows.getD []).all (fun r => hasKey r.1 p) && (s.obsRows.getD []).all (fun r => hasKey r.1 p)
+
+def wfBatch (s : Single) : Bool :=
+  match batchSize (s.paramRows.getD []) with
+  | none => true
+  | some B => (s.paramRows.getD []).all (fun r => r.2.length == B) && (termSizes s).all (· == B)
+
+def wfObs (s : Single) : Bool :=
+  match s.obs with
+  | none => true
+  | some m => (s.obsRows.getD []).all (fun r => r.2.length == m.xs.length)
+
 /-- A batch is well formed when it only names keys of the caller, all its rows have the same
     number `B` of entries and every term mapped together with it has `B` samples (what `vmap`
     requires).  The property constrains well-formed batches only. -/
-def wellFormed (p : Params) (s : Single) : Bool :=
-  let rows := s.paramRows.getD []
-  let orows := s.obsRows.getD []
-  let sizes : List Nat :=
-    (match s.dyn with | some m => [m.xs.length] | none => []) ++
-    (match s.icPDE with | some m => [m.xs.length] | none => []) ++
-    (s.boundary.map fun m => m.xs.length) ++
-    (match s.norm with | some (_, _, _, xs) => [xs.length] | none => []) ++
-    (match s.obs with | some m => [m.xs.length] | none => [])
-  rows.all (fun r => hasKey r.1 p) && orows.all (fun r => hasKey r.1 p) &&
-  (match batchSize rows with
-   | none => true
-   | some B => rows.all (fun r => r.2.length == B) && sizes.all (· == B)) &&
-  (match s.obs with
-   | none => true
-   | some m => orows.all (fun r => r.2.length == m.xs.length))
+def wellFormed (p : Params) (s : Single) : Bool := wfKeys p s && wfBatch s && wfObs s
+
+/-- stationary normalisation: `w · (L · mean_{i,c} u(s_i; sel i)_c − 1)²` -/
+def specNorm (nm : Option (Rat × Rat × (List Rat → Params → Val) × List (List Rat)))
+    (sel : Nat → Params) : Rat :=
+  match nm with
+  | none => 0
+  | some (w, L, f, xs) =>
+    let m := mean (((List.range xs.length).map fun i => f (xs.getD i []) (sel i)).flatten)
+    w * ((m * L - 1) * (m * L - 1))
+
+/-- initial condition of the ODE loss: one evaluation with the caller's parameters when nothing is
+    batched, else the mean over the rows of the parameter batch -/
+def specIcODE (ic : Option (Rat × (List Rat → Params → Val) × List Rat)) (p : Params) (rows : Rows) :
+    Rat :=
+  match ic with
+  | none => 0
+  | some (w, f, pt) =>
+    match batchSize rows with
+    | none => w * sq (f pt p)
+    | some B => mean ((List.range B).map fun i => w * sq (f pt (override p rows i)))
+
+/-- dynamic term: declared heterogeneous keys are replaced inside the equation -/
+def specDyn (dyn : Option MseIn) (het : Option Het) (sel : Nat → Params) : Rat :=
+  match dyn with
+  | none => 0
+  | some m => specMse m.w (fun pt q => m.f pt (hetSpec het q pt)) m.xs sel
 
 /-- the terms the property prescribes -/
 def specTerms (p : Params) (s : Single) : Terms :=
@@ -71,22 +106,11 @@ def specTerms (p : Params) (s : Single) : Terms :=
   let orows := s.obsRows.getD []
   let sel1 : Nat → Params := fun i => override p rows i
   let sel2 : Nat → Params := fun i => override (override p rows i) orows i
-  let dyn := match s.dyn with
-    | none => 0
-    | some m => specMse m.w (fun pt q => m.f pt (hetSpec s.het q pt)) m.xs sel1
-  let icO := match s.icODE with
-    | none => 0
-    | some (w, f, pt) =>
-      match batchSize rows with
-      | none => w * sq (f pt p)
-      | some B => mean ((List.range B).map fun i => w * sq (f pt (sel1 i)))
-  let nm := match s.norm with
-    | none => 0
-    | some (w, L, f, xs) =>
-      let m := mean (((List.range xs.length).map fun i => f (xs.getD i []) (sel1 i)).flatten)
-      w * ((m * L - 1) * (m * L - 1))
-  { dyn := dyn, ic := icO + specMseOpt s.icPDE sel1, boundary := specMseSum s.boundary sel1,
-    norm := nm, obs := specMseOpt s.obs sel2 }
+  { dyn := specDyn s.dyn s.het sel1,
+    ic := specIcODE s.icODE p rows + specMseOpt s.icPDE sel1,
+    boundary := specMseSum s.boundary sel1,
+    norm := specNorm s.norm sel1,
+    obs := specMseOpt s.obs sel2 }
 
 /-- observed outcome of `evaluate`: the terms and the total, or a rejection -/
 abbrev Outcome := Except String (Terms × Rat)
